@@ -40,6 +40,7 @@ ASSUMPTIONS: list[str] = []
 def check(rep: Report, ctx: Ctx) -> None:
     r41(rep, ctx)
     r42(rep, ctx)
+    r42_models(rep, ctx)
     r43(rep, ctx)
     r44(rep, ctx)
     r45(rep, ctx)
@@ -389,6 +390,29 @@ def r42(rep: Report, ctx: Ctx) -> None:
 
 
 # --------------------------------------------------------------------------
+def r42_models(rep: Report, ctx: Ctx) -> None:
+    """The model file is written and read through pydantic classes.  The
+    in-memory model keeps event types verbatim; a class that rewrites strings
+    (strip, case, length) stores and reloads them under another name, and
+    the next chunk's jobs then create a second event beside the loaded one."""
+    from .util import model_rewrites
+    for cls in ("EventSetCountInput", "EventInput", "EventInputsFile"):
+        probs = model_rewrites(ctx, cls)
+        c = ctx.index.cls(cls)
+        rep.ob("R4.2", f"{cls} passes event types and job names through "
+               "unchanged", not probs,
+               detail="; ".join(p[1] for p in probs) + (
+                   " -- names that differ only by what is rewritten are "
+                   "saved / reloaded under another name than the one "
+                   "ingestion uses" if probs else
+                   "no transforming model_config option, validator or "
+                   "constrained string type"))
+        rep.obligations[-1].func = c.qualname
+        rep.obligations[-1].file = c.module.relpath
+        rep.obligations[-1].line = probs[0][0].lineno if probs \
+            else c.node.lineno
+
+
 def r43(rep: Report, ctx: Ctx) -> None:
     rep.rule("R4.3", "accumulation is a set union of value objects", 5)
     init = ctx.func("Event.__init__")
